@@ -135,6 +135,8 @@ pub fn run(run: &Run) {
             false
         }
     });
+    huge_section(run, true, &[Prof::Opaque], &|_p, s, l| check(run, s, l));
+    concurrent_distinct(run, &[Prof::Opaque], &concurrent_unit, &|_p, s, l| check(run, s, l));
     collisions(run, "fingerprint_collisions", &|s, l| match check(run, s, l) {
         Ok(()) => true,
         Err(v) => {
@@ -154,6 +156,6 @@ pub fn run(run: &Run) {
 }
 
 pub fn replay(run: &Run, case: &Value) -> Check {
-    let s = jget_str(case, "input").unwrap();
+    let s = super::pipe::replay_input(case);
     check(run, &s, &mut Local::default())
 }
